@@ -286,6 +286,50 @@ pub fn run(ctx: &Ctx) -> i32 {
                 ev.sample(seq_json("all of MapBuilder/SetBuilder/raw insert/raw add + 10 bulk front ends", &seq));
             }
         }
+        // keys longer than 64 KiB: the error payloads must still carry the complete keys
+        if shard == 0 {
+            let big_a: Vec<u8> = (0..70_000).map(|i| b'a' + (i % 7) as u8).collect();
+            let mut big_b = big_a.clone();
+            big_b[69_990] = b'A'; // smaller than big_a, differs late
+            let mut big_c = big_a.clone();
+            big_c.push(b'!');
+            let seq: Vec<(Vec<u8>, u64)> = vec![(big_a.clone(), 1), (big_a.clone(), 2), (big_b.clone(), 3), (big_c.clone(), 4), (big_c.clone(), 5), (big_a.clone(), 6)];
+            for fe in FES.iter() {
+                if let Err(p) = guard(|| stepwise(*fe, &seq, ev)) {
+                    ev.violate("builder-panic", format!("{:?} panicked: {}", fe, p), seq_json(&format!("{:?}", fe), &seq));
+                }
+            }
+            for w in 0..10 {
+                if let Err(p) = guard(|| bulk(w, &seq, ev)) {
+                    ev.violate("builder-panic", format!("bulk front end {} panicked: {}", w, p), seq_json("bulk", &seq));
+                }
+            }
+            ev.count("sequences:70000-byte-keys");
+            // from_iter / extend_iter on a lazy iterator that CLAIMS an astronomical exact length: it must stop at the
+            // first rejected item with that item's error (no pre-allocation from the size hint, no panic)
+            let r = guard(|| {
+                let m = Map::from_iter((0..usize::MAX).map(|i| (if i == 0 { "b" } else { "a" }, i as u64)));
+                let s = Set::from_iter((0..usize::MAX).map(|i| if i < 2 { "k" } else { "a" }));
+                let mut mb = MapBuilder::memory();
+                let e = mb.extend_iter((0..usize::MAX).map(|i| (if i < 1 { "x" } else { "x" }, i as u64)));
+                (m.map(|_| ()), s.map(|_| ()), e)
+            });
+            ev.eval(None);
+            ev.count("bulk-calls:astronomical-size-hint");
+            match r {
+                Err(p) => ev.violate("builder-panic", format!("from_iter/extend_iter on a lazy iterator with an astronomical exact size hint panicked instead of stopping at the first rejected item: {}", p), J::Null),
+                Ok((m, s, e)) => {
+                    let want_m = Verdict::Ooo(b"b".to_vec(), b"a".to_vec());
+                    let want_s = Verdict::Ooo(b"k".to_vec(), b"a".to_vec());
+                    let want_e = Verdict::Dup(b"x".to_vec());
+                    for (name, got, want) in [("Map::from_iter", classify(&m), want_m), ("Set::from_iter", classify(&s), want_s), ("MapBuilder::extend_iter", classify(&e), want_e)].iter() {
+                        if got.as_ref().ok() != Some(want) {
+                            ev.violate("bulk-contract", format!("{} on an endless-looking iterator returned {:?}, the first offending item demands {:?}", name, got, want), J::Null);
+                        }
+                    }
+                }
+            }
+        }
         // random long sequences with error rates 0..50%
         let nrand = ctx.tier.pick(600, 20_000);
         for i in 0..nrand {
@@ -352,9 +396,9 @@ pub fn run(ctx: &Ctx) -> i32 {
         ev,
         Spec {
             level: "exploration",
-            rule: "one evaluation = one builder call (insert/add, or one bulk call) whose result - accept / DuplicateKey{got} / OutOfOrder{previous,got}, payloads included - is compared with a sequential model (last accepted key), bytes_written must not move on a rejected call, and the finished FST must hold exactly the accepted history; sequences: ALL 55987 (thorough: 335923) call sequences of length <=6 (thorough <=7) over {\"\",a,ab,b,ba,c} x {MapBuilder, SetBuilder, raw insert-only, raw add-only} step by step, each also fed to 10 bulk front ends (extend_iter, extend_stream, from_iter, from_iter_map/set) which must stop at the first rejected item with that item's error and (extend_*) keep the items before it; random sequences of 10..10^4 calls with 0-50% offending calls; non-trivial = every call; distinct = (sequence, front end, call index), distinct by construction",
+            rule: "one evaluation = one builder call (insert/add, or one bulk call) whose result - accept / DuplicateKey{got} / OutOfOrder{previous,got}, payloads included - is compared with a sequential model (last accepted key), bytes_written must not move on a rejected call, and the finished FST must hold exactly the accepted history; sequences: ALL 55987 (thorough: 335923) call sequences of length <=6 (thorough <=7) over {\"\",a,ab,b,ba,c} x {MapBuilder, SetBuilder, raw insert-only, raw add-only} step by step, each also fed to 10 bulk front ends (extend_iter, extend_stream, from_iter, from_iter_map/set) which must stop at the first rejected item with that item's error and (extend_*) keep the items before it; a sequence of 70000-byte keys (payloads must carry the complete keys); from_iter/extend_iter on lazy iterators claiming usize::MAX items; random sequences of 10..10^4 calls with 0-50% offending calls; non-trivial = every call; distinct = (sequence, front end, call index), distinct by construction",
             assumptions: vec!["mixing add and insert on one raw builder is neither a map nor a set builder and is not judged".into()],
-            floors: vec![("calls:accepted", 1000), ("calls:rejected-duplicate", 1000), ("calls:rejected-out-of-order", 1000), ("bulk-calls:stopped-at-first-rejection", 1000), ("sequences:exhaustive", 55_987)],
+            floors: vec![("calls:accepted", 1000), ("calls:rejected-duplicate", 1000), ("calls:rejected-out-of-order", 1000), ("bulk-calls:stopped-at-first-rejection", 1000), ("sequences:exhaustive", 55_987), ("sequences:70000-byte-keys", 1), ("bulk-calls:astronomical-size-hint", 1)],
             exhaustive: Some(true),
         },
     )
